@@ -4,3 +4,4 @@ set -e
 export CARGO_NET_OFFLINE=true
 cd /verif/engine
 cargo build --offline --release
+CARGO_TARGET_DIR=/verif/engine/target-dbg cargo build --offline --profile reldbg
